@@ -11,7 +11,14 @@ Property theorems only (helper lemmas: `Lemmas/FileFormat.lean`, `Lemmas/FileRou
   these generated definitions.
 * `fromFileSpec`, `arrayFromFileSpec` (Model/FileFormat.lean) are hand-written normal forms of the readers;
   `C14_reader_translated` / `C14_array_reader_translated` prove the generated readers equal to them (so a change of any translated reader statement breaks
-  that theorem and, through it, every round-trip theorem).  The constructor `construct` is hand-written, tied by K.
+  that theorem and, through it, every round-trip theorem).
+* `Spectrum.__new__`, `Spectrum.mask_corners`, `Spectrum.unmask_all`, `Spectrum.__array_finalize__` are GENERATED too
+  (`spectrumNew`, `maskCornersM`, `unmaskAllM`, `arrayFinalize`; every `Spectrum(...)` call of readers and unpickler is bound
+  against the signature and defaults of `__new__` into `newSpec`).  `construct` (Model/FileFormat.lean) is the constructor's
+  normal form; `C14_construct_translated` (+ the block theorems `C14_new_*`) proves the generated constructor equal to it for
+  EVERY argument value.
+* The format string of the data line `'%%.%ig' % precision` is the generated term `toFileFmt` / `arrayToFileFmt`
+  (`C14_precision_format`: it is `%.<p>g` with the REQUESTED p for every p).
 * Numbers are opaque tokens (`Tok`: non-empty, free of Python whitespace) in the file model.  What is assumed of
   `'%.{p}g' % x` and numpy's text parser is the explicit hypothesis structure `FmtContract` (Lemmas/FileValues.lean):
   parse (format p x) = round_p x, round_p idempotent, round_p = id for p ≥ 17, formatted entries are tokens.
@@ -53,6 +60,318 @@ theorem C14_array_writer_lines (comments : List Str) (shape : List Nat) (dataRow
   rw [this]
   simp [List.flatMap_append, term, dimsPart, tofileSep, NL]
 
+
+/-- **T obligation, `Spectrum.__array_finalize__`** (what `.view(subtype)`, `copy.copy`, slicing … run on the new array): mask
+    and fill value come from the array viewed, and `folded` / `pop_ids` / `extrap_x` are carried over when that array has them
+    (`'unspecified'` / None / None otherwise). -/
+theorem C14_new_finalize_block (s o : Obj) :
+    arrayFinalize s o = some { s with mask := o.mask, fillValue := o.fillValue,
+                                      folded := some (o.folded.getD (.str UNSPECIFIED)), popIds := some (o.popIds.getD .none),
+                                      extrapX := some (o.extrapX.getD .none) } := by
+  rfl
+
+/-- **T obligation, numpy part of the constructor** (`numpy.asanyarray`, `if mask is numpy.ma.nomask: mask = make_mask_none(…)`,
+    `numpy.ma.masked_array(data, mask=mask, dtype=dtype, copy=copy, fill_value=fill_value, keep_mask=True, shrink=True)` bound
+    against numpy's parameter list, `.view(subtype)`): the mask is `ctorMask` (argument OR-ed with the mask `data` brings), the
+    fill value the `fill_value` argument. -/
+theorem C14_new_mask_block (data mask : PyVal) (shape : List Nat) (toks : List Str) (own : Option Spec) (c : Bool) (t : Str)
+    (hb : baseOf data = some (shape, toks, own)) :
+    ((spectrumNew_if1 mask data).bind fun mask' =>
+        (maNew data mask' (.ty "float") (.bool c) (.num t) (.bool true) (.bool true)).bind (viewSubtype arrayFinalize))
+      = (ctorMask mask toks.length (ownMaskOf own toks.length)).map fun m => baseObj shape toks own m t := by
+  have hown : (ownMaskOf own toks.length).length = toks.length := by
+    rcases baseOf_cases data shape toks own hb with ⟨_, rfl⟩ | ⟨fs, _, rfl, h⟩
+    · simp [ownMaskOf]
+    · simpa [ownMaskOf] using h
+  unfold spectrumNew_if1
+  cases mask <;> simp [isNomask, makeMaskNone, hb, maNew, maskArgBits, ctorMask, viewSubtype, C14_new_finalize_block, baseObj,
+    zipWith_or_replicate_false' _ _ hown]
+  rename_i bits
+  by_cases hl : bits.length = toks.length
+  · simp [hl, viewSubtype, C14_new_finalize_block]
+  · simp only [hl, if_false]
+    match bits with
+    | [] => simp
+    | [b] => simp [viewSubtype, C14_new_finalize_block]
+    | _ :: _ :: _ => simp
+
+/-- **T obligation, folding status block** (`if hasattr(data, 'folded'): … elif data_folded is not None: … else: False`) -/
+theorem C14_new_folded_block (df data : PyVal) (shape : List Nat) (toks : List Str) (own : Option Spec) (subarr : Obj)
+    (hb : baseOf data = some (shape, toks, own)) :
+    spectrumNew_if2 df data subarr = (ctorFoldedV df own).map fun v => { subarr with folded := some v } := by
+  rcases baseOf_cases data shape toks own hb with ⟨rfl, rfl⟩ | ⟨fs, rfl, rfl, _⟩
+  · by_cases h : isNone df = true <;> simp [spectrumNew_if2, spectrumNew_if5, hasAttr, ctorFoldedV, h]
+  · by_cases h : (isNone df || pyEq df (.bool fs.folded)) = true
+    · simp [spectrumNew_if2, spectrumNew_if3, hasAttr, getAttr, oOr, ctorFoldedV, h]
+      cases hn : isNone df <;> simp [hn] at h ⊢
+      intro h'; rw [h] at h'; cases h'
+    · simp [spectrumNew_if2, spectrumNew_if3, spectrumNew_if4, hasAttr, getAttr, oOr, ctorFoldedV, h]
+      cases hn : isNone df <;> simp [hn] at h ⊢
+      simp [h]
+
+/-- **T obligation, folding check** (`if data_folded:` … two `logger.warning` under `check_folding and not numpy.all(…)`): it
+    only LOGS — the object is unchanged apart from its list of warnings (no exception, whatever the data). -/
+theorem C14_new_folding_check_block (df : PyVal) (cf : Bool) (subarr : Obj) :
+    spectrumNew_if6 df (.bool cf) subarr
+      = (truthy df).map fun b => if b then { subarr with warnings := subarr.warnings ++ foldingWarnings spectrumNew_msg1 spectrumNew_msg2 cf subarr.shape subarr.data subarr.mask } else subarr := by
+  unfold spectrumNew_if6
+  cases truthy df with
+  | none => rfl
+  | some b =>
+    cases b
+    · rfl
+    · cases cf <;> simp [spectrumNew_if7, spectrumNew_if8, truthy, oAnd, foldingWarnings]
+      generalize allZeroAt subarr.data _ = z
+      cases z <;> simp [Obj.warn] <;>
+        (generalize allTrueAt subarr.mask _ = a; cases a <;> simp [Obj.warn])
+
+/-- **T obligation, label block** (`if hasattr(data, 'pop_ids'): … else: if pop_ids is not None and len(pop_ids) != subarr.ndim:
+    raise ValueError`) -/
+theorem C14_new_popids_block (p data : PyVal) (shape : List Nat) (toks : List Str) (own : Option Spec) (subarr : Obj)
+    (hb : baseOf data = some (shape, toks, own)) :
+    spectrumNew_if9 p data subarr
+      = (ctorPopV p own subarr.shape.length spectrumNew_msg3).map fun vw =>
+          { subarr with popIds := some vw.1, warnings := subarr.warnings ++ vw.2 } := by
+  rcases baseOf_cases data shape toks own hb with ⟨rfl, rfl⟩ | ⟨fs, rfl, rfl, _⟩
+  · by_cases h : isNone p = true
+    · simp [spectrumNew_if9, spectrumNew_if13, hasAttr, ctorPopV, h, oAnd]
+    · simp [spectrumNew_if9, spectrumNew_if13, hasAttr, ctorPopV, h, oAnd]
+      cases pyLen p with
+      | none => rfl
+      | some n => by_cases hn : n = subarr.shape.length <;> simp [hn]
+  · by_cases h : (isNone p || pyEq p (labelsVal fs.popIds)) = true
+    · simp [spectrumNew_if9, spectrumNew_if10, hasAttr, getAttr, oOr, ctorPopV, h]
+      cases hn : isNone p <;> simp [hn] at h ⊢
+      intro h'; rw [h] at h'; cases h'
+    · simp [spectrumNew_if9, spectrumNew_if10, spectrumNew_if11, spectrumNew_if12, hasAttr, getAttr, oOr, ctorPopV, h]
+      cases hn : isNone p <;> simp [hn] at h ⊢
+      simp [h, Obj.warn]
+      cases pyLen p with
+      | none => rfl
+      | some n => by_cases hn : n = subarr.shape.length <;> simp [hn]
+
+/-- **T obligation, `if mask_corners: subarr.mask_corners()`** with the translated method `self.mask.flat[0] =
+    self.mask.flat[-1] = True`: both corners masked; IndexError on an array without entries. -/
+theorem C14_new_corners_block (mc : Bool) (subarr : Obj) :
+    spectrumNew_if14 (.bool mc) subarr = (ctorCorners mc subarr.mask).map fun m => { subarr with mask := m } := by
+  unfold spectrumNew_if14 maskCornersM ctorCorners
+  cases mc
+  · rfl
+  · simp only [truthy, Option.bind_some, if_true]
+    by_cases he : subarr.mask = []
+    · simp [he, setFlat_nil]
+    · have := setFlat_corners subarr.mask he
+      cases h0 : setFlat subarr.mask 0 true with
+      | none => rw [h0] at this; simp at this
+      | some t1 =>
+        rw [h0] at this
+        simp only [Option.bind_some] at this ⊢
+        simp [this, he]
+
+
+/-- the rest of the constructor (folding status, folding check, labels, corners, `extrap_x`) on the object the numpy part built -/
+theorem C14_new_tail (data df p x : PyVal) (mc cf : Bool) (shape : List Nat) (toks : List Str) (own : Option Spec)
+    (m : List Bool) (t : Str) (hb : baseOf data = some (shape, toks, own)) :
+    ((spectrumNew_if2 df data (baseObj shape toks own m t)).bind fun a =>
+      (spectrumNew_if6 df (.bool cf) a).bind fun a =>
+        (spectrumNew_if9 p data a).bind fun a =>
+          (spectrumNew_if14 (.bool mc) a).bind fun y => Obj.toSpec { y with extrapX := some x })
+      = (ctorFolded df own).bind fun f =>
+          (ctorPopIds p own shape.length).bind fun pl =>
+            (ctorExtrap x).bind fun ex =>
+              (ctorCorners mc m).map fun m' =>
+                { shape := shape, data := toks, mask := m', folded := f, popIds := pl, extrapX := ex } := by
+  rw [C14_new_folded_block df data shape toks own _ hb, ctorFolded_of_V, ctorPopIds_of_V p own shape.length spectrumNew_msg3]
+  cases hF : ctorFoldedV df own with
+  | none => rfl
+  | some fv =>
+    simp only [Option.map_some, Option.bind_some, C14_new_folding_check_block]
+    cases hT : truthy df with
+    | none => rfl
+    | some b =>
+      simp only [Option.map_some, Option.bind_some]
+      have hsh : ∀ w, (if b = true then ({ baseObj shape toks own m t with folded := some fv, warnings := w } : Obj)
+          else { baseObj shape toks own m t with folded := some fv }).shape = shape := by
+        intro w; cases b <;> rfl
+      cases b <;>
+      · simp only [Bool.false_eq_true, if_false, if_true]
+        rw [C14_new_popids_block p data shape toks own _ hb]
+        simp only [baseObj]
+        cases hP : ctorPopV p own shape.length spectrumNew_msg3 with
+        | none => cases asBool fv <;> rfl
+        | some pv =>
+          simp only [Option.map_some, Option.bind_some, C14_new_corners_block]
+          cases hC : ctorCorners mc m with
+          | none =>
+            cases asBool fv <;> cases asLabels pv.1 <;> cases ctorExtrap x <;> rfl
+          | some m' =>
+            simp only [Option.map_some, Option.bind_some, Obj.toSpec, ctorExtrap]
+
+/-- the numpy part in continuation form -/
+theorem C14_new_mask_block_k {β : Type} (k : Obj → Option β) (data mask : PyVal) (shape : List Nat) (toks : List Str)
+    (own : Option Spec) (c : Bool) (t : Str) (hb : baseOf data = some (shape, toks, own)) :
+    ((spectrumNew_if1 mask data).bind fun a =>
+        (maNew data a (.ty "float") (.bool c) (.num t) (.bool true) (.bool true)).bind fun a =>
+          (viewSubtype arrayFinalize a).bind k)
+      = (ctorMask mask toks.length (ownMaskOf own toks.length)).bind fun m => k (baseObj shape toks own m t) := by
+  have := congrArg (fun o => o.bind k) (C14_new_mask_block data mask shape toks own c t hb)
+  simpa [Option.bind_assoc, Option.bind_map, Function.comp_def] using this
+
+/-- **T obligation for `Spectrum.__new__`.**  The constructor GENERATED statement by statement from the current source, called
+    with `dtype=float`, `keep_mask=True` (the signature defaults; any `copy`, `shrink`, numeric `fill_value`), equals the normal
+    form `construct` for EVERY value of `data`, `mask`, `data_folded`, `pop_ids`, `extrap_x` (accepted or rejected) and both
+    values of `mask_corners` / `check_folding`.  Any change of a constructor statement breaks this or a block theorem above. -/
+theorem C14_construct_translated (data mask df p x : PyVal) (mc cf c sh : Bool) (t : Str) :
+    newSpec data mask (.bool mc) df (.bool cf) (.ty "float") (.bool c) (.num t) (.bool true) (.bool sh) p x
+      = construct data mask (.bool mc) df (.bool cf) p x := by
+  unfold newSpec spectrumNew construct
+  cases hb : baseOf data with
+  | none => simp [asanyarray, hb]
+  | some b =>
+    obtain ⟨shape, toks, own⟩ := b
+    simp only [asanyarray, hb, Option.map_some, Option.bind_some, Option.bind_assoc]
+    rw [C14_new_mask_block_k _ data mask shape toks own c t hb]
+    cases ctorMask mask toks.length (ownMaskOf own toks.length) with
+    | none => rfl
+    | some m =>
+      simp only [Option.bind_some]
+      exact C14_new_tail data df p x mc cf shape toks own m t hb
+
+/-- **the object the constructor builds, in full** (same hypotheses as `C14_construct_translated`, for an array-like `data`):
+    besides the attributes of the typed view it has the fill value passed as `fill_value` and exactly these warnings — those
+    of the folding check (only if `data_folded` is true AND `check_folding`) followed by the label-change warning (only if
+    `data` is a Spectrum whose labels are replaced). -/
+theorem C14_new_object (data mask df p x : PyVal) (mc cf c sh : Bool) (t : Str) (shape : List Nat) (toks : List Str)
+    (own : Option Spec) (hb : baseOf data = some (shape, toks, own)) :
+    spectrumNew data mask (.bool mc) df (.bool cf) (.ty "float") (.bool c) (.num t) (.bool true) (.bool sh) p x
+      = (ctorMask mask toks.length (ownMaskOf own toks.length)).bind fun m =>
+          (ctorFoldedV df own).bind fun fv => (truthy df).bind fun b =>
+            (ctorPopV p own shape.length spectrumNew_msg3).bind fun pv =>
+              (ctorCorners mc m).map fun m' =>
+                { shape := shape, data := toks, mask := m', fillValue := .num t, folded := some fv, popIds := some pv.1,
+                  extrapX := some x,
+                  warnings := (if b then foldingWarnings spectrumNew_msg1 spectrumNew_msg2 cf shape toks m else []) ++ pv.2 } := by
+  unfold spectrumNew
+  simp only [asanyarray, hb, Option.map_some, Option.bind_some, Option.bind_assoc]
+  rw [C14_new_mask_block_k _ data mask shape toks own c t hb]
+  cases ctorMask mask toks.length (ownMaskOf own toks.length) with
+  | none => rfl
+  | some m =>
+    simp only [Option.bind_some]
+    rw [C14_new_folded_block df data shape toks own _ hb]
+    cases ctorFoldedV df own with
+    | none => rfl
+    | some fv =>
+      simp only [Option.map_some, Option.bind_some, C14_new_folding_check_block]
+      cases truthy df with
+      | none => rfl
+      | some b =>
+        simp only [Option.map_some, Option.bind_some]
+        cases b <;>
+        · simp only [Bool.false_eq_true, if_false, if_true]
+          rw [C14_new_popids_block p data shape toks own _ hb]
+          simp only [baseObj]
+          cases ctorPopV p own shape.length spectrumNew_msg3 with
+          | none => rfl
+          | some pv =>
+            simp only [Option.map_some, Option.bind_some, C14_new_corners_block]
+            cases ctorCorners mc m with
+            | none => rfl
+            | some m' => simp
+
+/-- **the defaults of the constructor's signature** that the file / pickle clauses rest on: no mask, corners masked, folding
+    status taken from `data`, folding checked, `dtype=float`, a copy, fill value nan, `keep_mask`, no labels, no `extrap_x` — and
+    the parameter ORDER `(data, mask, mask_corners, data_folded, check_folding, …)` against which positional arguments of every
+    `Spectrum(...)` call are bound. -/
+theorem C14_new_signature :
+    newParams = ["data", "mask", "mask_corners", "data_folded", "check_folding", "dtype", "copy", "fill_value", "keep_mask",
+                 "shrink", "pop_ids", "extrap_x"]
+      ∧ newDefaults = [("mask", .nomask), ("mask_corners", .bool true), ("data_folded", .none), ("check_folding", .bool true),
+                       ("dtype", .ty "float"), ("copy", .bool true), ("fill_value", .num NANTOK), ("keep_mask", .bool true),
+                       ("shrink", .bool true), ("pop_ids", .none), ("extrap_x", .none)] := by
+  decide
+
+/-- **masked entries are written as nan by the generic array writer**: an object built by the constructor with the DEFAULT
+    `fill_value` has fill value nan, so `data.filled()` (`filledRowWith` that fill value) is `filledRow` — the row
+    `C14_array_masked` is about. -/
+theorem C14_fill_value_nan (data mask df p x : PyVal) (mc cf c sh : Bool) (o : Obj)
+    (h : spectrumNew data mask (.bool mc) df (.bool cf) (.ty "float") (.bool c)
+           ((newDefaults.lookup "fill_value").getD .none) (.bool true) (.bool sh) p x = some o) :
+    o.fillValue = .num NANTOK ∧ filledRowWith NANTOK o.data o.mask = filledRow o.data o.mask := by
+  refine ⟨?_, rfl⟩
+  have hd : (newDefaults.lookup "fill_value").getD PyVal.none = .num NANTOK := by decide
+  rw [hd] at h
+  cases hb : baseOf data with
+  | none => simp [spectrumNew, asanyarray, hb] at h
+  | some b =>
+    obtain ⟨shape, toks, own⟩ := b
+    rw [C14_new_object data mask df p x mc cf c sh NANTOK shape toks own hb] at h
+    cases h1 : ctorMask mask toks.length (ownMaskOf own toks.length) with
+    | none => rw [h1] at h; cases h
+    | some m =>
+      cases h2 : ctorFoldedV df own with
+      | none => rw [h1, h2] at h; cases h
+      | some fv =>
+        cases h3 : truthy df with
+        | none => rw [h1, h2, h3] at h; cases h
+        | some b =>
+          cases h4 : ctorPopV p own shape.length spectrumNew_msg3 with
+          | none => rw [h1, h2, h3, h4] at h; cases h
+          | some pv =>
+            simp only [h1, h2, h3, h4, Option.bind_some] at h
+            cases h5 : ctorCorners mc m with
+            | none => rw [h5] at h; cases h
+            | some m' =>
+              rw [h5] at h
+              simp only [Option.map_some, Option.some.injEq] at h
+              subst h; rfl
+
+/-- **`check_folding` never changes the object** (it only controls the two warnings of the folding check): the typed view
+    of what the constructor returns is the same for `check_folding=True` and `False` — which is why the unpickler may pass
+    `check_folding=False`. -/
+theorem C14_check_folding_irrelevant (data mask df p x : PyVal) (mc c sh : Bool) (t : Str) :
+    newSpec data mask (.bool mc) df (.bool true) (.ty "float") (.bool c) (.num t) (.bool true) (.bool sh) p x
+      = newSpec data mask (.bool mc) df (.bool false) (.ty "float") (.bool c) (.num t) (.bool true) (.bool sh) p x := by
+  rw [C14_construct_translated, C14_construct_translated]; rfl
+
+/-- **`Spectrum.mask_corners()`** (translated: `self.mask.flat[0] = self.mask.flat[-1] = True`): on a spectrum with at least
+    one entry exactly the first and the last flat entry become masked, nothing else changes; IndexError without entries. -/
+theorem C14_mask_corners_method (o : Obj) :
+    maskCornersM o = if o.mask = [] then none else some { o with mask := maskCorners o.mask } := by
+  have h := C14_new_corners_block true o
+  simp only [spectrumNew_if14, truthy, Option.bind_some, if_true] at h
+  have h' : maskCornersM o = (ctorCorners true o.mask).map fun m => { o with mask := m } := by
+    cases hm : maskCornersM o with
+    | none => rw [hm] at h; simpa using h
+    | some r => rw [hm] at h; simpa using h
+  rw [h']
+  by_cases he : o.mask = [] <;> simp [ctorCorners, he]
+
+/-- **`Spectrum.unmask_all()`** (translated: `self.mask[<all slices>] = False`).  Stated in the form that holds whichever of
+    the three spellings of "all slices" the source uses: IF the call returns, every entry is unmasked and nothing else changes.
+    On the pinned tree the index is a LIST of slices, which numpy ≥ 1.23 rejects (IndexError): the call never returns
+    (`unmaskAllM o = none`, agreed by K) — a defect of dadi outside the statement of C14, see notes/C14.md. -/
+theorem C14_unmask_all_partial (o o' : Obj) (h : unmaskAllM o = some o') :
+    o' = { o with mask := List.replicate o.mask.length false } := by
+  unfold unmaskAllM at h
+  cases hs : setAll o.mask _ false with
+  | none => rw [hs] at h; cases h
+  | some m =>
+    rw [hs] at h
+    simp only [Option.bind_some, Option.some.injEq] at h
+    subst h
+    rw [setAll_some _ _ _ _ hs]
+
+/-- non-vacuity of the constructor theorems on the copy-constructor path: a Spectrum passed as `data` with another mask —
+    masks are OR-ed, folding status and labels come from `data`, corners get masked, `extrap_x` is NOT inherited -/
+example :
+    newSpec (.spec { shape := [4], data := ["1".toList, "2".toList, "3".toList, "4".toList], mask := [false, true, false, false],
+                     folded := true, popIds := some ["a".toList], extrapX := some "0.5".toList })
+        (.marr [false, false, true, false]) (.bool true) .none (.bool true) (.ty "float") (.bool true) (.num NANTOK) (.bool true)
+        (.bool true) .none .none
+      = some { shape := [4], data := ["1".toList, "2".toList, "3".toList, "4".toList], mask := [true, true, true, true],
+               folded := true, popIds := some ["a".toList], extrapX := none } := by
+  decide
 
 /-- **T obligation, label block of the reader** (`if len(shape_spl) > next_ii + 1: pop_ids = line.split('"')[1::2] else: None`,
     lambda-lifted by the translator): labels are the odd pieces of the RAW line split on `"`, present iff a token follows the flag. -/
@@ -157,7 +476,7 @@ theorem C14_reader_translated (mc : Bool) (text : Str) : fromFile mc text = from
         cases hmask : maskOfLine (prodL shape) (splitWs ((rest.drop 2).headD [])) with
         | none => rfl
         | some mask =>
-          simp only [Option.bind_some]
+          simp only [Option.bind_some, C14_construct_translated]
           cases construct (PyVal.arr shape data) mask (PyVal.bool mc) (PyVal.bool folded) (PyVal.bool true)
             (labelsVal labels) PyVal.none <;> rfl
 
@@ -193,9 +512,10 @@ theorem C14_array_reader_translated (text : Str) : arrayFromFile text = arrayFro
     labels — if any — one per dimension and free of `"` and line breaks) and all comment lines without line breaks, reading
     the text that `to_file` writes returns the same shape, entries, folded flag and labels, the same mask (plus the two
     corners if `mask_corners=True`, the reader's default), no `extrap_x`, and the comments as `to_file` wrote them
-    (`strip`ped). -/
+    (`strip`ped).  `hnz`: with `mask_corners=True` the spectrum must have at least one entry — on an array without entries (an
+    axis of length 0) `Spectrum.__new__` raises IndexError in `mask_corners()` (translated; `C14_new_corners_block`). -/
 theorem C14_roundtrip (fs : Spec) (comments : List Str) (mc : Bool) (h : WellFormed fs)
-    (hc : ∀ c ∈ comments, Clean c) :
+    (hc : ∀ c ∈ comments, Clean c) (hnz : mc = true → fs.data ≠ []) :
     fromFile mc (toFile comments fs.shape fs.folded fs.popIds true fs.data fs.mask)
       = some ({ fs with mask := if mc then maskCorners fs.mask else fs.mask, extrapX := none },
               comments.map strip) := by
@@ -237,13 +557,13 @@ theorem C14_roundtrip (fs : Spec) (comments : List Str) (mc : Bool) (h : WellFor
   by_cases hm : fs.mask = []
   · have hd0 : fs.data.length = 0 := by rw [← h.mask_len, hm]; rfl
     simp only [hm, List.map_nil, ↓reduceIte]
-    rw [construct_nomask fs.shape fs.data mc fs.folded true fs.popIds h.data_len hpl, hd0]
+    rw [construct_nomask fs.shape fs.data mc fs.folded true fs.popIds h.data_len hpl hnz, hd0]
     cases mc <;> simp [maskCorners]
   · have hne : fs.mask.map fmtD ≠ [] := by simpa using hm
     have hrc : readCount (prodL fs.shape) (fs.mask.map fmtD) = some (fs.mask.map fmtD) :=
       readCount_exact _ _ (by simpa using h.mask_len.trans h.data_len)
     simp only [if_neg hne, hrc, mapM_parseBit, Option.map_some]
-    rw [construct_marr fs.shape fs.data fs.mask mc fs.folded true fs.popIds h.data_len h.mask_len hpl]
+    rw [construct_marr fs.shape fs.data fs.mask mc fs.folded true fs.popIds h.data_len h.mask_len hpl hnz]
 
 /-- the domain of `C14_roundtrip` is inhabited by a non-trivial case: 1×3 (a singleton axis), folded, labels with spaces,
     a masked middle entry and unmasked corners, the tokens `nan` and `1e-300` -/
@@ -270,10 +590,10 @@ example : WellFormed { shape := [1, 3], data := ["nan".toList, "1e-300".toList, 
 
 /-- with comments that are already stripped (what every caller passes in practice) the comments come back unchanged -/
 theorem C14_roundtrip_stripped (fs : Spec) (comments : List Str) (mc : Bool) (h : WellFormed fs)
-    (hc : ∀ c ∈ comments, Clean c) (hs : ∀ c ∈ comments, strip c = c) :
+    (hc : ∀ c ∈ comments, Clean c) (hs : ∀ c ∈ comments, strip c = c) (hnz : mc = true → fs.data ≠ []) :
     fromFile mc (toFile comments fs.shape fs.folded fs.popIds true fs.data fs.mask)
       = some ({ fs with mask := if mc then maskCorners fs.mask else fs.mask, extrapX := none }, comments) := by
-  rw [C14_roundtrip fs comments mc h hc]
+  rw [C14_roundtrip fs comments mc h hc hnz]
   congr 2
   rw [List.map_congr_left (g := id) hs, List.map_id]
 
@@ -281,7 +601,8 @@ theorem C14_roundtrip_stripped (fs : Spec) (comments : List Str) (mc : Bool) (h 
     shape and entries, UNFOLDED, NO labels, NOTHING masked (apart from the corners if `mask_corners=True`) — whatever the
     folding status, labels and mask of the spectrum that was written. -/
 theorem C14_old_format (fs : Spec) (comments : List Str) (mc : Bool) (hs : fs.shape ≠ [])
-    (hd : fs.data.length = prodL fs.shape) (ht : ∀ t ∈ fs.data, Tok t) (hc : ∀ c ∈ comments, Clean c) :
+    (hd : fs.data.length = prodL fs.shape) (ht : ∀ t ∈ fs.data, Tok t) (hc : ∀ c ∈ comments, Clean c)
+    (hnz : mc = true → fs.data ≠ []) :
     fromFile mc (toFile comments fs.shape fs.folded fs.popIds false fs.data fs.mask)
       = some ({ shape := fs.shape, data := fs.data,
                 mask := if mc then maskCorners (List.replicate fs.data.length false)
@@ -316,7 +637,7 @@ theorem C14_old_format (fs : Spec) (comments : List Str) (mc : Bool) (hs : fs.sh
   simp only [lineAt, List.drop_zero, List.drop_succ_cons, List.drop_nil, List.headD_cons, List.headD_nil,
     parseHeader_old, if_neg hs, splitWs_row _ ht, readCount_exact _ _ hd, hsw, maskOfLine, ↓reduceIte]
   have hnone : ∀ l, (none : Option (List Str)) = some l → l.length = fs.shape.length := by intro l hl; cases hl
-  have := construct_nomask fs.shape fs.data mc false true none hd hnone
+  have := construct_nomask fs.shape fs.data mc false true none hd hnone hnz
   simp only [labelsVal] at this ⊢
   rw [this]
 
@@ -364,9 +685,9 @@ theorem C14_array_masked (fs : Spec) (comments : List Str) (h : WellFormed fs) (
     arrayFromFile (arrayToFile comments fs.shape (filledRow fs.data fs.mask))
       = some ((fs.shape, filledRow fs.data fs.mask), comments.map strip) := by
   refine ⟨by decide, C14_array_rw _ _ _ h.shape_ne ?_ ?_ hc⟩
-  · simp [filledRow, List.length_zipWith, h.mask_len, h.data_len]
+  · simp [filledRow, filledRowWith, List.length_zipWith, h.mask_len, h.data_len]
   · intro t ht
-    unfold filledRow at ht
+    unfold filledRow filledRowWith at ht
     obtain ⟨i, hi, rfl⟩ := List.getElem_of_mem ht
     rw [List.getElem_zipWith]
     split
@@ -388,7 +709,8 @@ theorem C14_old_format_is_array_format (comments : List Str) (shape : List Nat) 
     spectrum with that shape and those entries, unfolded, unlabelled, nothing masked (corners only with `mask_corners=True`);
     every shape with ≥ 1 axis, singleton axes included. -/
 theorem C14_cross_array_to_spectrum (shape : List Nat) (dataRow : List Str) (comments : List Str) (mc : Bool)
-    (hs : shape ≠ []) (hd : dataRow.length = prodL shape) (ht : ∀ t ∈ dataRow, Tok t) (hc : ∀ c ∈ comments, Clean c) :
+    (hs : shape ≠ []) (hd : dataRow.length = prodL shape) (ht : ∀ t ∈ dataRow, Tok t) (hc : ∀ c ∈ comments, Clean c)
+    (hnz : mc = true → dataRow ≠ []) :
     fromFile mc (arrayToFile comments shape dataRow)
       = some ({ shape := shape, data := dataRow,
                 mask := if mc then maskCorners (List.replicate dataRow.length false)
@@ -397,7 +719,7 @@ theorem C14_cross_array_to_spectrum (shape : List Nat) (dataRow : List Str) (com
               comments.map strip) := by
   rw [← C14_old_format_is_array_format comments shape false none dataRow []]
   exact C14_old_format { shape := shape, data := dataRow, mask := [], folded := false, popIds := none, extrapX := none }
-    comments mc hs hd ht hc
+    comments mc hs hd ht hc hnz
 
 /-- **cross-reading, pre-1.3 Spectrum file → `array_from_file`**: shape, entries and comments come back -/
 theorem C14_cross_old_to_array (fs : Spec) (comments : List Str) (hs : fs.shape ≠ [])
@@ -463,29 +785,48 @@ theorem C14_open_dispatch (fname : Str) :
 /-- both cases of the dispatch occur -/
 example : (toFileOpen "a.fs.gz".toList).1 = "gzip.open" ∧ (toFileOpen "a.gz.fs".toList).1 = "open" := by decide
 
+/-- **the written precision is the requested one.**  The `fmt=` argument of the `numpy.savetxt` call in `to_file`
+    (`'%%.%ig' % precision`) and the format argument of `data.tofile` in `array_to_file`, translated with Python's
+    %-formatting applied symbolically, are `'%.<p>g'` with the REQUESTED precision p — for every p (in particular every
+    p ≥ 16, the property's range, and every p ≥ 17, where the round trip is exact): nothing caps, lowers or replaces it. -/
+theorem C14_precision_format (p : Nat) :
+    toFileFmt p = gFormat p ∧ arrayToFileFmt p = gFormat p
+      ∧ precisionOf (toFileFmt p) = some p ∧ precisionOf (arrayToFileFmt p) = some p := by
+  have h1 : toFileFmt p = gFormat p := by simp [toFileFmt, gFormat]
+  have h2 : arrayToFileFmt p = gFormat p := by simp [arrayToFileFmt, gFormat]
+  exact ⟨h1, h2, by rw [h1]; exact precisionOf_gFormat p, by rw [h2]; exact precisionOf_gFormat p⟩
+
+/-- the default precision is 16 (the lower end of the property's range) in both writers -/
+theorem C14_precision_default :
+    toFileDefaults.lookup "precision" = some "16" ∧ arrayToFileDefaults.lookup "precision" = some "16" := by
+  decide
+
 /-- **same values to the written precision** (to_file → from_file), proved FROM the explicit contract on number formatting
     (`FmtContract`: parse (format p x) = round_p x, round_p idempotent, round_p = id for p ≥ 17, formatted entries are
-    whitespace-free tokens).  For every spectrum of floats `vals` (≥ 1 axis, any mask, folded or not, labels), every
-    precision p: the file written with `'%.{p}g'` reads back to a spectrum `g` with the same shape, mask (+ corners),
-    folding and labels whose entries PARSE to `round_p` of the values written; writing these again and reading again
-    changes nothing; and they are exactly the values written when p ≥ 17. -/
-theorem C14_values_to_precision {F : Type} {fmt : Nat → F → Str} {parse : Str → Option F} {rnd : Nat → F → F}
-    (fc : FmtContract fmt parse rnd) (p : Nat) (vals : List F) (shape : List Nat) (mask : List Bool) (folded : Bool)
-    (popIds : Option (List Str)) (comments : List Str) (mc : Bool)
+    whitespace-free tokens), where "format p" is C's `printf` applied to the format string `'%.<p>g'` (`fmtS (gFormat p)`).
+    For every spectrum of floats `vals` (≥ 1 axis, any mask, folded or not, labels), every REQUESTED precision p: the file
+    `to_file(precision=p)` writes — entries formatted with the GENERATED format string `toFileFmt p` — reads back to a spectrum
+    `g` with the same shape, mask (+ corners), folding and labels whose entries PARSE to `round_p` of the values written;
+    writing these again and reading again changes nothing; and they are exactly the values written when p ≥ 17. -/
+theorem C14_values_to_precision {F : Type} {fmtS : Str → F → Str} {parse : Str → Option F} {rnd : Nat → F → F}
+    (fc : FmtContract (fun p => fmtS (gFormat p)) parse rnd) (p : Nat) (vals : List F) (shape : List Nat) (mask : List Bool)
+    (folded : Bool) (popIds : Option (List Str)) (comments : List Str) (mc : Bool)
     (hs : shape ≠ []) (hlen : vals.length = prodL shape) (hm : mask.length = vals.length)
     (hl : ∀ l, popIds = some l → l.length = shape.length ∧ ∀ x ∈ l, QUOTE ∉ x ∧ Clean x)
-    (hc : ∀ c ∈ comments, Clean c) :
-    ∃ g : Spec, fromFile mc (toFile comments shape folded popIds true (vals.map (fmt p)) mask) = some (g, comments.map strip)
+    (hc : ∀ c ∈ comments, Clean c) (hnz : mc = true → vals ≠ []) :
+    ∃ g : Spec, fromFile mc (toFile comments shape folded popIds true (vals.map (fmtS (toFileFmt p))) mask)
+          = some (g, comments.map strip)
       ∧ g.shape = shape ∧ g.folded = folded ∧ g.popIds = popIds
       ∧ g.mask = (if mc then maskCorners mask else mask)
       ∧ g.data.mapM parse = some (vals.map (rnd p))
-      ∧ ((vals.map (rnd p)).map (fmt p)).mapM parse = some (vals.map (rnd p))
+      ∧ ((vals.map (rnd p)).map (fmtS (toFileFmt p))).mapM parse = some (vals.map (rnd p))
       ∧ (17 ≤ p → g.data.mapM parse = some vals) := by
-  have hw : WellFormed { shape := shape, data := vals.map (fmt p), mask := mask, folded := folded, popIds := popIds,
+  rw [(C14_precision_format p).1]
+  have hw : WellFormed { shape := shape, data := vals.map (fmtS (gFormat p)), mask := mask, folded := folded, popIds := popIds,
                          extrapX := none } :=
     { shape_ne := hs, data_len := by simpa using hlen, mask_len := by simpa using hm, toks := fc.toks p vals, labels := hl }
-  have hrt := C14_roundtrip { shape := shape, data := vals.map (fmt p), mask := mask, folded := folded, popIds := popIds,
-                              extrapX := none } comments mc hw hc
+  have hrt := C14_roundtrip { shape := shape, data := vals.map (fmtS (gFormat p)), mask := mask, folded := folded,
+                              popIds := popIds, extrapX := none } comments mc hw hc (by simpa using hnz)
   dsimp only at hrt
   refine ⟨_, hrt, rfl, rfl, rfl, rfl, fc.parse_row p vals, fc.stable_row p vals, ?_⟩
   intro hp
@@ -497,48 +838,59 @@ theorem C14_values_to_precision {F : Type} {fmt : Nat → F → Str} {parse : St
 example : FmtContract (F := Nat) (fun _ n => fmtI n) parseInt (fun _ n => n) := fmtContract_nat
 example : ∃ g : Spec, fromFile true (toFile [] [1, 3] true none true ([7, 0, 12].map fmtI) [false, true, false]) = some (g, [])
     ∧ g.data.mapM parseInt = some [7, 0, 12] := by
-  obtain ⟨g, h1, _, _, _, _, h2, _, _⟩ := C14_values_to_precision fmtContract_nat 16 [7, 0, 12] [1, 3] [false, true, false]
-    true none [] true (by decide) (by decide) (by decide) (by intro l hl; cases hl) (by intro c hc; cases hc)
+  obtain ⟨g, h1, _, _, _, _, h2, _, _⟩ := C14_values_to_precision (fmtS := fun _ n => fmtI n) fmtContract_nat 16 [7, 0, 12] [1, 3]
+    [false, true, false] true none [] true (by decide) (by decide) (by decide) (by intro l hl; cases hl) (by intro c hc; cases hc)
+    (by decide)
   exact ⟨g, h1, h2⟩
 
 /-- **same values to the written precision**, generic array writer / reader and (by `C14_old_format_is_array_format`) the
-    pre-1.3 Spectrum format read by either reader: shape and comments come back, the entries parse to `round_p` of the values
-    written, are stable under a second write/read, and are the values written when p ≥ 17. -/
-theorem C14_array_values_to_precision {F : Type} {fmt : Nat → F → Str} {parse : Str → Option F} {rnd : Nat → F → F}
-    (fc : FmtContract fmt parse rnd) (p : Nat) (vals : List F) (shape : List Nat) (comments : List Str)
+    pre-1.3 Spectrum format read by either reader: shape and comments come back, the entries (formatted with the GENERATED
+    `arrayToFileFmt p`) parse to `round_p` of the values written, are stable under a second write/read, and are the values
+    written when p ≥ 17. -/
+theorem C14_array_values_to_precision {F : Type} {fmtS : Str → F → Str} {parse : Str → Option F} {rnd : Nat → F → F}
+    (fc : FmtContract (fun p => fmtS (gFormat p)) parse rnd) (p : Nat) (vals : List F) (shape : List Nat) (comments : List Str)
     (hs : shape ≠ []) (hlen : vals.length = prodL shape) (hc : ∀ c ∈ comments, Clean c) :
-    ∃ toks : List Str, arrayFromFile (arrayToFile comments shape (vals.map (fmt p))) = some ((shape, toks), comments.map strip)
-      ∧ (∀ mc, ∃ g : Spec, fromFile mc (arrayToFile comments shape (vals.map (fmt p))) = some (g, comments.map strip)
-            ∧ g.shape = shape ∧ g.data = toks)
+    ∃ toks : List Str, arrayFromFile (arrayToFile comments shape (vals.map (fmtS (arrayToFileFmt p))))
+          = some ((shape, toks), comments.map strip)
+      ∧ (∀ mc, (mc = true → vals ≠ []) →
+            ∃ g : Spec, fromFile mc (arrayToFile comments shape (vals.map (fmtS (arrayToFileFmt p)))) = some (g, comments.map strip)
+              ∧ g.shape = shape ∧ g.data = toks)
       ∧ toks.mapM parse = some (vals.map (rnd p))
-      ∧ ((vals.map (rnd p)).map (fmt p)).mapM parse = some (vals.map (rnd p))
+      ∧ ((vals.map (rnd p)).map (fmtS (arrayToFileFmt p))).mapM parse = some (vals.map (rnd p))
       ∧ (17 ≤ p → toks.mapM parse = some vals) := by
-  have hd : (vals.map (fmt p)).length = prodL shape := by simpa using hlen
-  refine ⟨vals.map (fmt p), C14_array_rw shape _ comments hs hd (fc.toks p vals) hc, ?_, fc.parse_row p vals,
+  rw [(C14_precision_format p).2.1]
+  have hd : (vals.map (fmtS (gFormat p))).length = prodL shape := by simpa using hlen
+  refine ⟨vals.map (fmtS (gFormat p)), C14_array_rw shape _ comments hs hd (fc.toks p vals) hc, ?_, fc.parse_row p vals,
     fc.stable_row p vals, ?_⟩
-  · intro mc
-    exact ⟨_, C14_cross_array_to_spectrum shape _ comments mc hs hd (fc.toks p vals) hc, rfl, rfl⟩
+  · intro mc hnz
+    exact ⟨_, C14_cross_array_to_spectrum shape _ comments mc hs hd (fc.toks p vals) hc (by simpa using hnz), rfl, rfl⟩
   · intro hp
     have := fc.parse_row p vals
     rw [fc.exact_row p hp vals] at this
     exact this
 
-/-- **pickle.**  The tuple `Spectrum_pickler` returns, fed to `Spectrum_unpickler` (both generated from the source, the
-    constructor call bound against the signature of `Spectrum.__new__`), rebuilds the same object: data, shape, mask,
-    folded flag, labels and `extrap_x` — in particular the unpickler does NOT re-mask the corners and needs no folding
-    check.  Holds for every spectrum whose mask and labels fit its shape (no condition on the entries). -/
+/-- **pickle.**  The tuple `Spectrum_pickler` returns, fed to `Spectrum_unpickler` (both generated from the source; the
+    constructor call bound — positional arguments by POSITION, keywords by name, the rest from the defaults — against the
+    signature of the translated `Spectrum.__new__`), rebuilds the same object: data, shape, mask, folded flag, labels and
+    `extrap_x` — in particular the unpickler does NOT re-mask the corners and needs no folding check.  Holds for every spectrum
+    whose mask and labels fit its shape (no condition on the entries). -/
 theorem C14_pickle (fs : Spec) (hd : fs.data.length = prodL fs.shape) (hm : fs.mask.length = fs.data.length)
     (hp : ∀ l, fs.popIds = some l → l.length = fs.shape.length) :
     unpickle (reduceArgs fs) = some fs := by
   obtain ⟨shape, data, mask, folded, popIds, extrapX⟩ := fs
   simp only at hd hm hp
-  cases popIds with
-  | none => cases extrapX <;> simp [unpickle, reduceArgs, construct, getData, getMask, getFolded, getPopIds, getExtrapX,
-      labelsVal, numVal, hd, hm]
-  | some l =>
-    have := hp l rfl
-    cases extrapX <;> simp [unpickle, reduceArgs, construct, getData, getMask, getFolded, getPopIds, getExtrapX,
-      labelsVal, numVal, hd, hm, this]
+  have hz := zipWith_or_false_right' (prodL shape) mask (hm.trans hd)
+  have hpp : ctorPopIds (labelsVal popIds) none shape.length = some popIds := by
+    cases popIds with
+    | none => rfl
+    | some l => simp [ctorPopIds, labelsVal, hp l rfl]
+  show (unpickleObj (reduceArgs _)).bind Obj.toSpec = _
+  simp only [unpickleObj, reduceArgs, getData, getMask, getFolded, getPopIds, getExtrapX]
+  have := C14_construct_translated (.arr shape data) (.marr mask) (.bool folded) (labelsVal popIds) (numVal extrapX)
+    false false true true NANTOK
+  unfold newSpec at this
+  rw [show (['n', 'a', 'n'] : Str) = NANTOK from rfl, this]
+  simp [construct, baseOf, hd, ctorMask, hm, ownMaskOf, hz, ctorFolded, hpp, ctorExtrap, asNum_numVal, ctorCorners]
 
 /-- non-vacuity: unmasked corners, a masked interior entry, folded, labels, `extrap_x` set -/
 example : unpickle (reduceArgs { shape := [2, 2], data := ["1".toList, "2".toList, "3".toList, "4".toList],
@@ -547,6 +899,79 @@ example : unpickle (reduceArgs { shape := [2, 2], data := ["1".toList, "2".toLis
     = some { shape := [2, 2], data := ["1".toList, "2".toList, "3".toList, "4".toList],
              mask := [false, true, false, false], folded := true,
              popIds := some ["a b".toList, "c".toList], extrapX := some "0.01".toList } := by decide
+
+/-- **what travels in a pickle, and what does not.**  The model's object has the attributes `objFields` (data, mask,
+    fill_value, folded, pop_ids, extrap_x); the reduce tuple carries all of them EXCEPT `fill_value`.  The object the unpickler
+    builds from the tuple has: the typed view `fs` again (every attribute the property names, and `extrap_x`), the constructor's
+    DEFAULT fill value nan (a fill value changed by hand is not restored — outside the property), and NO warning logged (no
+    folding check: `check_folding=False`; no label change). -/
+theorem C14_pickle_state (fs : Spec) (hd : fs.data.length = prodL fs.shape) (hm : fs.mask.length = fs.data.length)
+    (hp : ∀ l, fs.popIds = some l → l.length = fs.shape.length) :
+    (∀ f ∈ reduceFields, f ∈ objFields) ∧ (∀ f ∈ objFields, f ∉ reduceFields → f = "fill_value") ∧
+    ∃ o : Obj, unpickleObj (reduceArgs fs) = some o ∧ o.toSpec = some fs
+      ∧ o.fillValue = .num NANTOK ∧ o.warnings = [] := by
+  refine ⟨by decide, by decide, ?_⟩
+  have hpk := C14_pickle fs hd hm hp
+  change (unpickleObj (reduceArgs fs)).bind Obj.toSpec = some fs at hpk
+  cases ho : unpickleObj (reduceArgs fs) with
+  | none => rw [ho] at hpk; cases hpk
+  | some o =>
+    rw [ho] at hpk
+    have hb : baseOf (getData fs) = some (fs.shape, fs.data, none) := by simp [getData, baseOf, hd]
+    have hobj := C14_new_object (getData fs) (getMask fs) (getFolded fs) (getPopIds fs) (getExtrapX fs) false false true true
+      NANTOK fs.shape fs.data none hb
+    have hu : unpickleObj (reduceArgs fs) = spectrumNew (getData fs) (getMask fs) (.bool false) (getFolded fs) (.bool false)
+        (.ty "float") (.bool true) (.num NANTOK) (.bool true) (.bool true) (getPopIds fs) (getExtrapX fs) := rfl
+    rw [hu, hobj] at ho
+    have hfw : ∀ sh d m, foldingWarnings spectrumNew_msg1 spectrumNew_msg2 false sh d m = [] := by
+      intro sh d m; simp [foldingWarnings]
+    cases h1 : ctorMask (getMask fs) fs.data.length (ownMaskOf none fs.data.length) with
+    | none => rw [h1] at ho; cases ho
+    | some m =>
+      cases h2 : ctorFoldedV (getFolded fs) none with
+      | none => rw [h1, h2] at ho; cases ho
+      | some fv =>
+        cases h3 : truthy (getFolded fs) with
+        | none => rw [h1, h2, h3] at ho; cases ho
+        | some b =>
+          cases h4 : ctorPopV (getPopIds fs) none fs.shape.length spectrumNew_msg3 with
+          | none => rw [h1, h2, h3, h4] at ho; cases ho
+          | some pv =>
+            have hpv2 : pv.2 = [] := by
+              unfold ctorPopV at h4
+              simp only at h4
+              split at h4
+              · cases h4; rfl
+              · cases hl : pyLen (getPopIds fs) with
+                | none => rw [hl] at h4; cases h4
+                | some n =>
+                  rw [hl] at h4
+                  simp only [Option.bind_some] at h4
+                  split at h4
+                  · cases h4; rfl
+                  · cases h4
+            rw [h1, h2, h3, h4] at ho
+            simp only [Option.bind_some, ctorCorners, Bool.false_eq_true, if_false, Option.map_some, Option.some.injEq] at ho
+            subst ho
+            exact ⟨_, rfl, hpk, rfl, by simp [hfw, hpv2]⟩
+
+/-- **every pickle protocol, for a protocol-independent reason**: the reduce tuple determines the object.  Under the explicit
+    hypothesis `PickleTransport` (the byte stream hands the argument tuple back unchanged, protocols 0–5 — the pickle module and
+    numpy's array pickling are outside the model), `loads(dumps(fs, protocol))` = the registered rebuild function applied to
+    the registered reducer's tuple = `fs`, whatever the protocol. -/
+theorem C14_pickle_any_protocol {Stream : Type} {dump : Nat → List PyVal → Stream} {load : Stream → Option (List PyVal)}
+    (pt : PickleTransport dump load) (proto : Nat) (hproto : proto ≤ 5) (fs : Spec)
+    (hd : fs.data.length = prodL fs.shape) (hm : fs.mask.length = fs.data.length)
+    (hp : ∀ l, fs.popIds = some l → l.length = fs.shape.length) :
+    (load (dump proto (reduceArgs fs))).bind unpickle = some fs := by
+  rw [pt.args_back proto hproto]
+  exact C14_pickle fs hd hm hp
+
+example : (some (reduceArgs { shape := [2], data := ["1".toList, "2".toList], mask := [false, true], folded := true,
+                              popIds := some ["a b".toList], extrapX := none })).bind unpickle
+    = some { shape := [2], data := ["1".toList, "2".toList], mask := [false, true], folded := true,
+             popIds := some ["a b".toList], extrapX := none } :=
+  C14_pickle_any_protocol pickleTransport_id 5 (by decide) _ (by decide) (by decide) (by intro l hl; cases hl; decide)
 
 /-- the registration that makes `pickle` use the pair above -/
 theorem C14_pickle_registered :
